@@ -1,6 +1,6 @@
 //! Set history engine binary (C07, C02, C05, C09, C10, C12, C15, C19 — Set side).
 use engines::common::Ctx;
-use engines::fam::{AlignF, K12F, OddF, Copyf, Large, NoDrop, Raw, TinyF, Track, WordF, Zst};
+use engines::fam::{AlignF, K12F, OddF, PathF, Copyf, Large, NoDrop, Raw, TinyF, Track, WordF, Zst};
 use engines::sethist::{history, required_rows};
 
 fn main() {
@@ -38,6 +38,7 @@ fn main() {
             "odd" => engines::dispatch_n!(n, [2, 4, 8, 16], history, OddF, (cx, hist, rng, max_steps)),
             "k12" => engines::dispatch_n!(n, [1, 3, 4, 8], history, K12F, (cx, hist, rng, max_steps)),
             "raw" => engines::dispatch_n!(n, [0, 1, 2, 3, 4, 8], history, Raw, (cx, hist, rng, max_steps)),
+            "path" => engines::dispatch_n!(n, [0, 1, 2, 3, 4, 8], history, PathF, (cx, hist, rng, max_steps)),
             "large" => engines::dispatch_n!(n, [1, 2, 4], history, Large, (cx, hist, rng, max_steps)),
             "zst" => engines::dispatch_n!(n, [0, 1, 2, 3, 4, 8], history, Zst, (cx, hist, rng, max_steps)),
             "nodrop" => engines::dispatch_n!(n, [0, 1, 2, 3, 4, 8], history, NoDrop, (cx, hist, rng, max_steps)),
